@@ -61,8 +61,9 @@ def _cfg_of(state):
 def run(ctx):
     from harness.replay import keyspace as rk
     rep = Reporter(ctx, "C20")
-    sizes = [1, 2, 3] if ctx.quick else [1, 2, 3, 4]
+    sizes = [2, 3] if ctx.quick else [1, 2, 3, 4]
     replayed = clean = 0
+    selftested = False
     for n in sizes:
         cfg = tlc.write_cfg(os.path.join(ctx.scratch, "ks%d.cfg" % n), constants={"NPools": n}, invariants=INV, deadlock=False)
         res, nodes, edges, init = tlc.state_graph("SessionKeyspace", cfg, ctx.scratch, coverage=True, timeout=900)
@@ -91,6 +92,17 @@ def run(ctx):
                 ctx.sample({"direction": "spec->code", "configuration": conf, "actions": acts})
             if not divs:
                 clean += 1
+                if not selftested and len(states) >= 3:
+                    # binding self-test: the same behaviour with one flipped expectation must be noticed
+                    bad = list(states)
+                    flipped = dict(bad[-1])
+                    flipped["completions"] = flipped["completions"] + 1
+                    bad[-1] = flipped
+                    d2 = rk.replay(bad)
+                    if not (d2 and d2[0]["step"] == len(bad) - 1 and "completions" in d2[0]["diff"]):
+                        raise tlc.MachineryError("binding self-test failed: a flipped expectation was not noticed by the replay")
+                    selftested = True
+                    ctx.note("binding_selftest_replay_flipped_expectation_noticed", 1)
             for d in divs:
                 sig = d["signature"]
                 rep.report("C20", sig, "%sreplay diverges at step %d (%s) in configuration %s: %s"
@@ -115,9 +127,9 @@ def run(ctx):
     ctx.note("vacuity_witnesses_reached", len(WITNESSES))
 
     # ---- code -> spec: recorded random runs validated against Trace_SessionKeyspace.tla
-    n_tr = 150 if ctx.quick else 1500
+    n_tr = 200 if ctx.quick else 1500
     accepted = recorded = 0
-    for n in ([2, 3] if ctx.quick else [2, 3, 4]):
+    for n in ([3] if ctx.quick else [2, 3, 4]):
         traces = [rk.record(n, ctx.rng) for _ in range(n_tr)]
         good = len(traces)
         victims = [i for i, t in enumerate(traces) if len(t) >= 5][:8]
